@@ -11,6 +11,8 @@ import Lemmas.Alter.Address
 import Lemmas.Alter.Constraints
 import Lemmas.Alter.Succeeds
 import Lemmas.Alter.Complete
+import Lemmas.Alter.ConstraintsIff
+import Lemmas.Alter.OracleIdentity
 /-!
 # C13 — alter_column changes only what it was asked to change, on every dialect
 
@@ -217,6 +219,44 @@ example : defaultIs (applyStmt ⟨"c", "INTEGER", false, some (.identity false n
       (.identityAlter ⟨none, "t"⟩ "c" none none [])).default
     (.identity false none [("nominvalue", "True")]) = false := by decide
 
+/-- **Identity requests, every supported direction, PostgreSQL** (request changes the server default
+only): `None -> Identity` (ADD GENERATED ... AS IDENTITY with all options), `Identity -> Identity`
+with any options on both sides (exactly the differing `SET ...` clauses), `Identity -> None`
+(DROP IDENTITY), identity left alone: the statements' effect makes the requested identity hold
+(`defaultIs`) and nothing else about the column changes.  Excluded (and false, see
+`exact_counterexample` / C13-PG-IDENTITY-ASSUMED): an Identity on one side only with the other side
+a plain default or unstated. -/
+theorem exact_identity_only_postgresql (r : Req) (init : ColState) (ho : defaultOnly r = true)
+    (hi : pgIdentityOk r = true) (ha : agrees r init = true) :
+    exactOk .postgresql r init (alterColumn .postgresql r) = true :=
+  exactOk_alterColumn _ _ _ (exact_identity_only_pg r init ho hi ha)
+
+/-- **Identity requests on Oracle, together with any other requested change**: requested identity
+over none / plain / identity / unstated existing default (`MODIFY c GENERATED ... AS IDENTITY (...)`
+restates all options), `Identity -> None` (`MODIFY c DROP IDENTITY`), identity left alone — the whole
+output satisfies `exactOk`. -/
+theorem exact_oracle_identity (r : Req) (init : ColState)
+    (hi : oracleIdentityOk r = true) (ha : agrees r init = true) :
+    exactOk .oracle r init (alterColumn .oracle r) = true :=
+  exactOk_alterColumn _ _ _ (exact_impl_oracle_identity r init hi ha)
+
+/-- non-vacuity: identity -> identity with options on PostgreSQL (default only), and an Oracle request
+that sets an identity over a plain default while renaming and retyping the column -/
+def identityOnlyReq : Req :=
+  { table := "t", column := "c", schema := none, type_ := none, nullable := none,
+    serverDefault := .set (.identity true (some 2) [("nominvalue", "True")]), newName := none,
+    comment := .unset, autoinc := none, exType := none, exNullable := none,
+    exDefault := .set (.identity false none [("cycle", "True")]), exComment := none, exAutoinc := none,
+    usingE := none }
+
+example : defaultOnly identityOnlyReq = true ∧ pgIdentityOk identityOnlyReq = true ∧
+    (alterColumn .postgresql identityOnlyReq).stmts =
+      [.identityAlter ⟨none, "t"⟩ "c" (some true) (some 2) [("nominvalue", "True")]] := by decide
+
+example : oracleIdentityOk { sampleReq with serverDefault := .set (.identity true (some 2) [("cache", "5")]) } = true ∧
+    agrees { sampleReq with serverDefault := .set (.identity true (some 2) [("cache", "5")]) } sampleInit = true := by
+  decide
+
 example : identitySupported { sampleReq with serverDefault := .set (.identity true (some 2) []), exDefault := .drop } = true := by
   decide
 
@@ -338,6 +378,15 @@ impl of a TypeDecorator, as the dialect's variant). -/
 theorem constraints_complete (d : Dialect) (r : Req) : constraintComplete d r (alterColumn d r) = true :=
   alterColumn_complete d r
 
+/-- **Constraint statements appear exactly when they should.** For a call that does not raise:
+a `DROP CONSTRAINT` / `ADD ... CHECK` statement is emitted iff a type change is requested and
+(the stated existing type owns a named CHECK on a dialect that drops type-bound CHECKs, or the new
+type owns a CHECK on a dialect that adds them) — `constraints` and `constraints_complete` as one
+equation. -/
+theorem constraints_iff (d : Dialect) (r : Req) (hok : (alterColumn d r).err = none) :
+    (alterColumn d r).stmts.any isConstraint = wantsConstraintStmt d r :=
+  constraints_iff_impl d r hok
+
 /-- nullable-only change of a column whose stated existing type owns a named CHECK constraint -/
 def constraintWitness : Req :=
   { table := "t1", column := "c1", schema := none,
@@ -355,6 +404,12 @@ example : constraintOk constraintWitness
 example : constraintComplete .oracle
     { constraintWitness with type_ := some ⟨"VARCHAR2(1 CHAR)", false, some (some "en3")⟩ }
     ⟨[.type_ ⟨none, "t1"⟩ "c1" "VARCHAR2(1 CHAR)" none], none⟩ = false := by decide
+
+/-- `constraints_iff`, both sides non-trivial: no type change -> no constraint statement although the
+existing type owns one; with a type change on Oracle -> the DROP is there -/
+example : wantsConstraintStmt .oracle constraintWitness = false ∧
+    wantsConstraintStmt .oracle { constraintWitness with type_ := some ⟨"INTEGER", false, none⟩ } = true ∧
+    (alterColumn .oracle { constraintWitness with type_ := some ⟨"INTEGER", false, none⟩ }).err = none := by decide
 
 /-- ... and accepts the drop when the type does change -/
 example : constraintOk { constraintWitness with type_ := some ⟨"INTEGER", false, none⟩ }
